@@ -237,6 +237,16 @@ class Item:
         return len([m for m in re.finditer(r"\b(loop|while|for)\b", s) if bo < m.start() < bc and mask[m.start()]])
 
     # -- rules (declared rewrites) -------------------------------------------------------------
+    def rule_opt(self, name, regex, repl, fn=None):
+        """apply a declared rule at every site where it matches (possibly none); returns the number of sites"""
+        n = 0
+        while True:
+            try:
+                self.rule(name, regex, repl, count=None, fn=fn)
+                n += 1
+            except Lost:
+                return n
+
     def rule(self, name, regex, repl, count=1, fn=None):
         s = self.buf.text
         lo, hi = 0, len(s)
@@ -244,7 +254,11 @@ class Item:
             lo, _, hi = self.fn_span(fn)
         mask = code_mask(s)
         ms = [m for m in re.finditer(regex, s, re.S) if lo <= m.start() and m.end() <= hi + 1 and mask[m.start()]]
-        if len(ms) != count:
+        if count is None:
+            if not ms:
+                raise Lost(f"{self.relpath}: rule {name}: no site")
+            ms = ms[:1]
+        elif len(ms) != count:
             raise Lost(f"{self.relpath}: rule {name}: expected {count} site(s), found {len(ms)}")
         for m in reversed(ms):
             new = m.expand(repl) if isinstance(repl, str) else repl(m)
